@@ -33,8 +33,9 @@ fn new_at(table_addr: u64, cr3: u64, slot: u64, e: u64) -> Vec<i128> {
                 let idx = d.rsplit("recursive_index: PageTableIndex(").next().and_then(|t| t.split(')').next()).and_then(|t| t.trim().trim_end_matches(',').trim().parse::<i128>().ok());
                 match idx { Some(i) => vec![0, i], None => vec![-97] }
             }
-            Err(InvalidPageTable::NotRecursive) => vec![-30],
-            Err(InvalidPageTable::NotActive) => vec![-31],
+            // the reason is also reported as text (Display): it must name the same reason
+            Err(e @ InvalidPageTable::NotRecursive) => { let t = e.to_string(); if t.contains("recursive") && !t.contains("active") { vec![-30] } else { vec![-94] } }
+            Err(e @ InvalidPageTable::NotActive) => { let t = e.to_string(); if t.contains("active") && !t.contains("recursive") { vec![-31] } else { vec![-94] } }
         }));
         // the table must not have been modified by the constructor
         let mut changed = false;
